@@ -78,6 +78,8 @@ def boot_side(ctx):
     metas = [r[1] for r in results]
     verdicts, stats = tlc.validate_batch("BootTrace", "BootTrace.cfg", traces, name="BootTrace_C03")
     ctx.add_traces(len(traces), stats)
+    tlc.repeat_failing(ctx, "BootTrace", "BootTrace.cfg", traces, metas, verdicts, range(len(plan)),
+                       lambda k: run_boot(plan[k][0], plan[k][1], plan[k][2]), "BootTrace_C03")
     ctx.coverage["real_process_boot_failures"] = len(traces)
     for t, m, (v, step) in zip(traces, metas, verdicts):
         if v == "ok":
